@@ -130,6 +130,28 @@ module T = struct
          | None -> dead := true; print_string "ILLEGAL\n")) ops
 end
 
+(* ---------------------------------------------------------------- StoreQ (PriorityReqStore) *)
+module Q = struct
+  open StoreQ
+  let op_of w =
+    let i n = int_of_string (L.nth w n) in
+    match L.hd w with
+    | "QPUT" -> QPut (z_of_int (i 1), nat_of_int (i 2))
+    | "QGET" -> QGet (z_of_int (i 1))
+    | "PROCPUT" -> QProcPut
+    | "PROCGET" -> QProcGet
+    | "QCPUT" -> QCancelPut (nat_of_int (i 1))
+    | "QCGET" -> QCancelGet (nat_of_int (i 1))
+    | o -> failwith ("op " ^ o)
+  let gstr = function GPut t -> Printf.sprintf "P%d" (int_of_nat t) | GGet (t, i) -> Printf.sprintf "G%d:%d" (int_of_nat t) (int_of_nat i)
+  let toks q = ints (L.map (fun r -> int_of_nat r.q_tok) q)
+  let case hdr ops =
+    let s0 = qinit (nat_of_int (int_of_string (L.nth hdr 2))) in
+    L.iter (fun (g, s) ->
+      Printf.printf "%s|%s|%s|%s\n" (String.concat "," (L.map gstr g)) (ints (L.map int_of_nat s.qitems)) (toks s.qputq) (toks s.qgetq))
+      (qrun_trace s0 (L.map op_of ops))
+end
+
 let () =
   let cur = ref None and ops = ref [] in
   let flush () =
@@ -141,6 +163,7 @@ let () =
           | "storep" -> P.case hdr (L.rev !ops)
           | "storeb" -> B.case hdr (L.rev !ops)
           | "tbuffer" -> T.case hdr (L.rev !ops)
+          | "storeq" -> Q.case hdr (L.rev !ops)
           | m -> failwith ("model " ^ m));
          print_string "END\n");
     cur := None; ops := [] in
